@@ -20,8 +20,9 @@ Clauses of the property:
   `fallback_sample_shape` (reproducibility: the result is a function of the draws, which are a function
   of the seed — MT19937, trusted; measured in the harness);
 * "wrapped regressors fall back to the documented default (mean 0, or the empirical label mean)":
-  `wrapper_fallback_values`, `wrapper_delegates`, `normal_fallback_partial`, `normal_fallback_few_labels`;
-  false for `SklearnNormalRegressor` when all labels are equal: `normal_fallback_zero_std_counterexample`.
+  `wrapper_fallback_values`, `wrapper_delegates`, `normal_fallback` (full strength since the scale is
+  bounded below by `tiny`), `normal_fallback_few_labels`; the pre-repair behaviour is recorded in
+  `Regressions.normal_fallback_zero_std_counterexample`.
 -/
 
 set_option linter.unusedSectionVars false
@@ -217,35 +218,39 @@ theorem wrapper_fallback_values (sqrt : α → α) (em : List α) (es : Option (
       exact sq_nonneg' _
     · rw [natTo_eq]; positivity
 
-/-
-Full statement for `SklearnNormalRegressor` ("falls back to the empirical label mean, std finite and
-non-negative with at least two labels") — FALSE of the current code when all labels are equal: the
-fallback scale `np.std(labels) = 0` is handed to `scipy.stats.norm`, whose moments are NaN for
-`scale = 0`:
+/-- **normal_fallback** (full strength): with the scale bounded from below by a positive `tiny`,
+`SklearnNormalRegressor` with an unfitted estimator predicts, for any number of labels (also constant
+ones), the label mean (`0` without labels) and the standard deviation `max(_label_std, tiny)`, which is
+a positive number — never NaN.  (`hsqrt`: scipy reports `sqrt(scale²)`; in IEEE doubles `tiny²`
+underflows, so the reported std of constant labels is `0.0` — still finite and non-negative.) -/
+theorem normal_fallback (sqrt : α → α) (hsqrt : ∀ x, 0 ≤ x → sqrt (x * x) = x) (tiny : α) (htiny : 0 < tiny)
+    (ys : List α) (n : Nat) :
+    normalFallbackPredict sqrt tiny ys n =
+      (List.replicate n (some (labelMean ys)), List.replicate n (some (boundScale tiny (labelStd sqrt ys)))) ∧
+    0 < boundScale tiny (labelStd sqrt ys) ∧ labelStd sqrt ys ≤ boundScale tiny (labelStd sqrt ys) ∧
+    (tiny ≤ labelStd sqrt ys → boundScale tiny (labelStd sqrt ys) = labelStd sqrt ys) := by
+  have hpos : 0 < boundScale tiny (labelStd sqrt ys) := by
+    unfold boundScale; split
+    · exact htiny
+    · rename_i h; exact lt_of_lt_of_le htiny (not_lt.mp h)
+  refine ⟨by simp [normalFallbackPredict, normMean, normStd, hpos, hsqrt _ (le_of_lt hpos)], hpos, ?_, ?_⟩
+  · unfold boundScale; split
+    · rename_i h; exact le_of_lt h
+    · exact le_refl _
+  · intro h; unfold boundScale; rw [if_neg (not_lt.mpr h)]
 
-  theorem normal_fallback (sqrt) (ys) (n) : normalFallbackPredict sqrt ys n =
-      (replicate n (some (labelMean ys)), replicate n (some (labelStd sqrt ys)))
-
-Proved under the hypothesis the proof forces (`0 < _label_std`, which holds with fewer than two labels
-and whenever the labels are not all equal); counter-example below.
--/
-
-theorem normal_fallback_partial (sqrt : α → α) (ys : List α) (n : Nat) (hpos : 0 < labelStd sqrt ys) :
-    normalFallbackPredict sqrt ys n =
-      (List.replicate n (some (labelMean ys)), List.replicate n (some (labelStd sqrt ys))) := by
-  simp [normalFallbackPredict, normMean, normStd, hpos]
-
-/-- fewer than two labels: the scale is `1`, so the fallback is always well defined. -/
-theorem normal_fallback_few_labels (sqrt : α → α) (ys : List α) (n : Nat) (h : ys.length < 2) :
-    normalFallbackPredict sqrt ys n = (List.replicate n (some (labelMean ys)), List.replicate n (some 1)) := by
+/-- fewer than two labels: the scale is `1` (for `tiny ≤ 1`). -/
+theorem normal_fallback_few_labels (sqrt : α → α) (hsqrt : ∀ x, 0 ≤ x → sqrt (x * x) = x) (tiny : α)
+    (htiny : 0 < tiny) (ht1 : tiny ≤ 1) (ys : List α) (n : Nat) (h : ys.length < 2) :
+    normalFallbackPredict sqrt tiny ys n = (List.replicate n (some (labelMean ys)), List.replicate n (some 1)) := by
   have h1 : ¬ 1 < ys.length := by omega
-  have : labelStd sqrt ys = 1 := by simp [labelStd, h1]
-  rw [normal_fallback_partial sqrt ys n (by rw [this]; exact zero_lt_one), this]
+  have hs : labelStd sqrt ys = 1 := by simp [labelStd, h1]
+  obtain ⟨e, -, -, hb⟩ := normal_fallback sqrt hsqrt tiny htiny ys n
+  rw [e, hb (by rw [hs]; exact ht1), hs]
 
-/-- two equal labels `3, 3` (any `sqrt` with `sqrt 0 = 0`): mean and std are NaN, not `3` and `0`. -/
-theorem normal_fallback_zero_std_counterexample :
-    normalFallbackPredict (α := Int) (fun x => x) [3, 3] 2 = ([none, none], [none, none]) ∧
-    labelMean (α := Int) [3, 3] = 3 := by decide
+/-- constant labels `3, 3` after the repair: mean `3`, std `tiny`. -/
+example : normalFallbackPredict (α := Int) (fun x => x) 1 [3, 3] 2 = ([some 3, some 3], [some 1, some 1]) := by
+  decide
 
 /-- the fallback of `sample_y` keeps the shape `(n_query, n_samples)` of the normal draws. -/
 theorem fallback_sample_shape (z : List (List α)) (std mean : α) :
@@ -268,3 +273,16 @@ example : estimateMl (α := Rat) [1, 1/2, 1/2] [2, 4, 0] = (2, 2, 2) := by
 example : sampleY (α := Int) 3 [[1, 2, 3], [4, 5, 6]] = [[1, 4], [2, 5], [3, 6]] := by decide
 
 end Ska.C15
+
+/-! ## Regressions: statements about definitions that model code as it was before a repair -/
+
+namespace Ska.C15.Regressions
+open Ska Ska.Classifier Ska.Regressor
+
+/-- before commit 90dd3135 (scale not bounded): two equal labels `3, 3` (any `sqrt` with `sqrt 0 = 0`)
+gave NaN mean and std instead of `3` and `0`. -/
+theorem normal_fallback_zero_std_counterexample :
+    normalFallbackPredictOld (α := Int) (fun x => x) [3, 3] 2 = ([none, none], [none, none]) ∧
+    labelMean (α := Int) [3, 3] = 3 := by decide
+
+end Ska.C15.Regressions
